@@ -56,3 +56,9 @@ Proof.
   intros st idxs ys i. split; [apply gen_add_is_step|]. split; [apply gen_clear_is_step|]. split; [apply gen_update_is_step|apply gen_predict_is_model].
 Qed.
 Print Assumptions C16_regenerated_methods_are_the_machine_steps.
+
+(* the regenerated constructor stores the configured noise variance as given (zero included) and starts from empty stores *)
+From VOPyGen Require Gen_extra4.
+Theorem C16_constructor_keeps_the_configured_noise_variance : forall nv, Gen_extra4.gen_emp_init_noise nv = nv.
+Proof. reflexivity. Qed.
+Print Assumptions C16_constructor_keeps_the_configured_noise_variance.
